@@ -356,9 +356,15 @@ Fixpoint actions_list {A} (fuel : nat) (f : M A) : M (list A) :=
                 else xs <- actions_list n f ;; ret (x :: xs)
   end.
 
-(** [parse_projection] = temporary flag around [parse_comma_separated]. *)
+(** [parse_projection] = temporary flag around [parse_comma_separated]; each ITEM is parsed with the
+    flag put back to the value found at entry (so that the lists of a subquery nested in an item do
+    not inherit the projection-only trailing comma), and the flag is switched on again for the
+    end-of-list test after the item. *)
+Definition with_tc_to {A} (v : bool) (f : M A) : M A :=
+  fun d s => let '(o, s') := f d (set_tc v s) in
+             match o with Panic => (o, s') | _ => (o, set_tc (tc s) s') end.
 Definition projection {A} (fuel : nat) (item : M A) : M (list A) :=
-  with_projection_tc (comma_sep fuel item).
+  fun d s => with_projection_tc (comma_sep fuel (with_tc_to (tc s) item)) d s.
 
 (** * Fuelled recursion for clients *)
 Fixpoint mfix {X A} (F : (X -> M A) -> X -> M A) (fuel : nat) (x : X) : M A :=
